@@ -167,6 +167,7 @@ PROPS = {
         "level": "model_checking",
         "harnesses": [
             H("H_C05_compareData", "three buffers of 0..3 symbolic 64-bit words", reach=["compared", "equal"], quick=Q, thorough=T),
+            H("H_C05_shrinkSteps", "the real shrink() with all its passes on a failing 5-word recording made of two same-label standalone groups of different length (payload words from 3 representatives, both orders), property failing at one site; every accepted candidate strictly smaller than its predecessor, result not larger than the input", reach=["accepted-step", "shrunk"], quick=Q, thorough=T),
             H("H_C05_accept", "pre-state = recording of any failing run of a symbolic 3-opcode program (2 fatal sites, data-dependent site, non-fatal site, panic, skip) on any buffer of <=3 (quick) / <=4 (thorough) words; candidate = any buffer of <=3/<=4 words; one call of the real accept", reach=["accepted", "rejected"], quick=Q, thorough=T),
         ],
         "assumptions": ENGINE_ASSUME + ["dataStr (cache key of rejected candidates) is structural on symbolic words: a spurious cache miss re-runs the candidate with the same result"],
@@ -191,8 +192,9 @@ PROPS = {
     },
     "C02": {
         "level": "model_checking",
-        "harnesses": [H("H_C02_checkOnce", TSTATE_BOUNDS, reach=TSTATE_REACH, quick=Q, thorough=T)],
-        "assumptions": ENGINE_ASSUME,
+        "harnesses": [H("H_C02_checkOnce", TSTATE_BOUNDS, reach=TSTATE_REACH, quick=Q, thorough=T),
+                      H("H_C09_failfileFlaky", "real checkTB with a valid fail file present and a property whose outcome per invocation is chosen by the solver (fails on the first replay, passes on the second, ...): a falsified invocation always fails the test", reach=["falsified", "failfile-falsified"], native=False, quick=Q, thorough=T)],
+        "assumptions": ENGINE_ASSUME + ["fail files live in the in-memory file system model"],
     },
     "C10": {
         "level": "model_checking",
